@@ -116,3 +116,64 @@ func VerifC28_single() {
 	}
 	verifReach("returned")
 }
+
+// VerifC28_multi: batches through singleClient.DoMulti. Each position is a write, a read-only
+// command or a write marked retryable; an attempt either succeeds or the connection drops after
+// the server has executed a prefix of the batch (prefix length by decision).
+func VerifC28_multi() {
+	sc := &verifStubConn{}
+	rt := newRetryer(func(attempts int, cmd Completed, err error) time.Duration { return 0 })
+	client := newSingleClientWithConn(sc, cmds.NewBuilder(cmds.NoSlot), true, false, rt, true)
+	n := 2 + verifChoose(2)
+	kinds := make([]int, n)
+	multi := make([]Completed, n)
+	for i := range multi {
+		kinds[i] = verifChoose(3)
+		switch kinds[i] {
+		case 0:
+			multi[i] = client.B().Incr().Key("k").Build().Pin()
+		case 1:
+			multi[i] = client.B().Get().Key("k").Build().Pin()
+		default:
+			multi[i] = client.B().Incr().Key("k").Build().ToRetryable().Pin()
+		}
+	}
+	execs := make([]int, n)
+	attempts := 0
+	maxAttempts := verifParam("max_attempts", 3)
+	sc.doMulti = func(ctx context.Context, m []Completed) []RedisResult {
+		attempts++
+		verifAssert(len(m) == n, "the whole batch is sent")
+		rs := make([]RedisResult, len(m))
+		if attempts < maxAttempts && verifChoose(2) == 1 {
+			done := verifChoose(len(m) + 1) // the server executed this many commands before the connection dropped
+			for i := range rs {
+				if i < done {
+					execs[i]++
+				}
+				rs[i] = NewErrorResult(verifErrPage)
+			}
+			verifReach("dropped")
+			return rs
+		}
+		for i := range rs {
+			execs[i]++
+			rs[i] = NewResult(strmsg(typeSimpleString, "OK"), nil)
+		}
+		return rs
+	}
+	resps := client.DoMulti(context.Background(), multi...)
+	verifAssert(len(resps) == n, "one result per command")
+	allRetryable := true
+	for i := range kinds {
+		if kinds[i] == 0 {
+			allRetryable = false
+			verifAssert(execs[i] <= 1, "a command that is neither read-only nor retryable is executed at most once per DoMulti call")
+		}
+	}
+	if attempts > 1 {
+		verifAssert(allRetryable, "a batch is re-sent only when every command in it is read-only or retryable")
+		verifReach("retried")
+	}
+	verifReach("returned")
+}
